@@ -38,6 +38,8 @@ def _run(ctx, quick, pool):
                              properties=loop.FIXED_PROPS, Mode="fixed", RestartMode="grid", Extras={True, False},
                              TEnds=t_ends, MaxInterior=extra_outs, Dts=dts, Emit=True, workers=4, timeout=900,
                              coverage=not quick)
+    if not quick:
+        ctx.notes["actions_taken"] = loop.require_actions([res], ("FixedStep", "EmitOutput", "Restart", "Finish"))
     behs = [b for b in res.printed if isinstance(b, dict) and b.get("mode") == "fixed"]
     if not behs or not any(b["rs"] for b in behs):
         raise loop.tlc.TLCMachineryError("no restart scenarios printed")
@@ -49,7 +51,7 @@ def _run(ctx, quick, pool):
                   Extras={True}, TEnds={8}, MaxInterior=1, Dts={2, 3}, Bugs={"none", "dropExtra"}, workers=2, timeout=300)),
             ("restart at off-grid output times: ChunkEq refuted (precondition of C13 is necessary)",
              dict(invariants=loop.FIXED_INVS, Mode="fixed", RestartMode="any", Extras={True}, TEnds={8}, MaxInterior=0,
-                  Dts={3}, workers=2, timeout=300, expect=("ChunkEq",)))]
+                  Dts={3}, workers=1, timeout=300, expect=("ChunkEq",)))]
     ex = ThreadPoolExecutor(max_workers=2)
     side_futs = [(label, ex.submit(loop.run_loop_spec, None, label, **kw)) for label, kw in side]
 
